@@ -33,6 +33,15 @@ CHECKS = {
              'graph (RFC 2396 resolution against the containing entity), must have been offered to the resolver first, and must not be opened when the resolver supplied a source; required resources '
              'must be fetched. Documents with exactly N entity expansions around each limit L (0..1000; content, attribute, nested, mixed) and reference cycles of length 1-6 check the expansion bound.',
         note='Trusted: strace and the marker-based attribution of system calls to cases; the hook counter. HTTP redirects/proxies not modelled. Parameter-entity expansion is a known finding.'),
+    'C07': dict(
+        category='exploration', design_ref='DESIGN.md §4 C07',
+        technique='runtime monitoring: reference content-model matcher (Brzozowski derivatives) with exhaustive small-sequence enumeration + single-constraint validity cases + validation on/off differential; ASan+UBSan',
+        text='For random deterministic content models (depth <= 4, all occurrence operators) EVERY child sequence up to length 3 (quick) / 4 (thorough) over the model alphabet plus a foreign '
+             'element, plus longer random sequences, is validated by the IG and DG scanners through 4 APIs and compared with the derivative matcher; 70 single-constraint cases cover required/fixed/'
+             'enumerated/NMTOKEN(S)/ID/IDREF(S)/ENTITY/ENTITIES/NOTATION attributes, root type, EMPTY/mixed/ANY/children content with whitespace, comments, CDATA and entity content, duplicate '
+             'declarations and the standalone-declaration constraints; a validity violation must yield >= 1 validity error and no fatal error; valid documents give the same events with validation on and off.',
+        note='Trusted: the derivative matcher (cross-checked against python re at development time), the hand-written expectations of the constraint cases (XML 1.0 5th edition text). '
+             'Non-deterministic content models are outside the oracle.'),
     'C15': dict(
         category='exploration', design_ref='DESIGN.md §4 C15',
         technique='runtime monitoring: differential oracle over operation histories (n-th operation on a used parser vs the same operation on a fresh parser), under ASan+UBSan',
